@@ -6,7 +6,7 @@ import ast
 
 from ..cfg import Oracle, build_cfg
 from ..effects import Effects
-from ..index import AnalysisError, FuncInfo, Repo, UNKNOWN, norm, unparse
+from ..index import AnalysisError, FuncInfo, Repo, UNKNOWN, norm, unparse  # noqa: F401
 from ..replay import Mismatch, Replayer, verdict
 from ..report import Ctx
 from ..util import Facts, arg, callee_attr, calls_in_node, cfg_nodes_with_call
@@ -39,6 +39,30 @@ def static_type_set(repo: Repo, fi_or_cls, node: ast.AST) -> set[str] | None:
     if isinstance(node, ast.Dict):
         return static_type_set(repo, fi_or_cls, ast.Tuple(elts=list(node.keys), ctx=ast.Load()))
     return None
+
+
+def is_type_valued(repo: Repo, fi: FuncInfo, e: ast.AST, depth: int = 0) -> bool:
+    """the expression denotes a *type* (type(x), a local bound to it, a parameter annotated/always passed a type)"""
+    if depth > 3:
+        return False
+    if isinstance(e, ast.Call) and isinstance(e.func, ast.Name) and e.func.id == "type" and len(e.args) == 1:
+        return True
+    if isinstance(e, ast.Attribute) and e.attr == "__class__":
+        return True
+    if isinstance(e, ast.Name):
+        for a in fi.node.args.args + fi.node.args.kwonlyargs:
+            if a.arg == e.id:
+                if a.annotation is not None and unparse(a.annotation).split("[")[0] in ("type", "Type", "typing.Type"):
+                    return True
+                sites = repo.callsites(fi.qualname)
+                formals = [x.arg for x in fi.node.args.args]
+                idx = formals.index(e.id) - (1 if formals and formals[0] in ("self", "cls") else 0)
+                if sites and all(idx < len(c.args) and is_type_valued(repo, caller, c.args[idx], depth + 1) for caller, c in sites):
+                    return True
+                return False
+        al = repo.local_alias(e.id, fi)
+        return al is not None and is_type_valued(repo, fi, al, depth + 1)
+    return False
 
 
 def check(ctx: Ctx) -> None:
@@ -134,7 +158,8 @@ def check(ctx: Ctx) -> None:
     # ---- C01.d / C01.g effects of save()
     f_pub = repo.func(f"{GB}._Serializer.save")
     savers = [m for n, m in sorted(ser.methods.items()) if n.startswith("save_")]
-    eff = Effects(repo, dynamic={(f_save.qualname, "dispatch"): savers}, extra_total={"enumerate"})
+    dyn_names = {unparse(c.func) for c in repo.calls_in(f_save) if isinstance(c.func, ast.Name) and len(c.args) == 2 and unparse(c.args[0]) == "self"}
+    eff = Effects(repo, dynamic={(f_save.qualname, n): savers for n in (dyn_names or {"dispatch"})}, extra_total={"enumerate"})
     esc = eff.escapes(f_pub)
     if eff.unclassified:
         fi, c = eff.unclassified[0]
@@ -229,16 +254,19 @@ def check(ctx: Ctx) -> None:
         for m in ser.methods.values():
             vparams = {p for p in m.params() if p != "self"}
             for x in repo.own_nodes(m):
-                if isinstance(x, ast.Subscript) and isinstance(x.value, ast.Attribute) and unparse(x.value.value) in ("self", ser.name, "self.__class__"):
+                if isinstance(x, ast.Subscript) and isinstance(x.value, ast.Attribute) and unparse(x.value.value) in ("self", "cls", ser.name, "self.__class__"):
                     n += 1
                     key_names = {y.id for y in ast.walk(x.slice) if isinstance(y, ast.Name)}
-                    keyed_by_type = all(k not in vparams or m.name == "_save" and k == "tp" for k in key_names) and not (key_names & vparams)
-                    ob.site(m, x, f"serializer table access {norm(x)[:50]}", keyed_by_value=not keyed_by_type)
-                    if key_names & vparams:
+                    by_type = is_type_valued(repo, m, x.slice)
+                    ob.site(m, x, f"serializer table access {norm(x)[:50]}", keyed_by_type=by_type)
+                    if key_names & vparams and not by_type:
                         ob.violation(m, x, f"the serializer consults a table keyed by the value being saved (`{norm(x)}`): equal values of different type or bit pattern "
                                            "(1, 1.0, True; 0.0, -0.0) would share one encoding -- the round trip is no longer type-exact")
-                if isinstance(x, ast.Call) and callee_attr(x) in ("get", "setdefault", "pop") and isinstance(x.func.value, ast.Attribute) and unparse(x.func.value.value) == "self" \
-                        and x.args and {y.id for y in ast.walk(x.args[0]) if isinstance(y, ast.Name)} & vparams:
+                if isinstance(x, ast.Call) and callee_attr(x) in ("get", "setdefault", "pop") and isinstance(x.func, ast.Attribute) and isinstance(x.func.value, ast.Attribute) \
+                        and unparse(x.func.value.value) in ("self", "cls", ser.name, "self.__class__"):
+                    n += 1
+                if isinstance(x, ast.Call) and callee_attr(x) in ("get", "setdefault", "pop") and isinstance(x.func, ast.Attribute) and isinstance(x.func.value, ast.Attribute) and unparse(x.func.value.value) in ("self", "cls") \
+                        and x.args and {y.id for y in ast.walk(x.args[0]) if isinstance(y, ast.Name)} & vparams and not is_type_valued(repo, m, x.args[0]):
                     ob.violation(m, x, f"the serializer consults a table keyed by the value being saved (`{norm(x)[:60]}`)")
             for x in repo.own_nodes(m):
                 if isinstance(x, ast.Assign) and m.name != "__init__" and any(unparse(t) == "self._write" for t in x.targets):
